@@ -191,6 +191,8 @@ class LitJudge(Judge):
         ctx = {'vector': obj, 'specs': specs}
         if self.judged % 1499 == 1:
             self.sample({'case': what, 'documented_verdict': obj['verdict']})
+        if self.prop == 'C11' and mode == 'annot' and '.' not in obj['a1'] + obj['a2']:
+            return              # file order can only matter where another namespace is involved
         if self.prop == 'C11':
             # the same files in the opposite order: same verdict, same description (incl. computed examples)
             outs = []
